@@ -7,5 +7,4 @@ import (
 	"verif/internal/dval"
 )
 
-func lookupCases(l *dval.Lines, tier string, r *rand.Rand, emit func(core.Case))    {}
 func typedConvCases(l *dval.Lines, tier string, r *rand.Rand, emit func(core.Case)) {}
